@@ -5,7 +5,9 @@ RULE = ("each case takes two parts A and B (repository proteins, cut-outs, chime
         "gives B unused chain identifiers, rotates it by a lattice rotation and translates it along a "
         "random lattice direction until the minimum inter-atomic distance is d in {25.001, 26, 30, 50, 100, "
         "500, 999, 1000.5, 1500, 5000, as far as the coordinate field allows} A (exact integer arithmetic), "
-        "and runs A alone, B alone, A+TER+B and B+TER+A. Oracle: every group record of each part inside "
+        "and runs A alone, B alone, A+TER+B and B+TER+A; in 30 % of the built cases B keeps chain identifiers "
+        "that A uses (numbers distinct), in 30 % both parts carry the same kind of ligand, and parts that hit "
+        "the 10-sweep cap are also combined with whole proteins. Oracle: every group record of each part inside "
         "either union equals its record alone (1e-7), for every conformation and AVR, and no run raises. "
         "Non-trivial: both parts have >= 2 titratable groups and >= 1 Coulomb determinant each; "
         "distinct = distinct (digest of A, digest of B, d).")
